@@ -4,6 +4,7 @@ package table
 // bounded, never counted as proved): TextRenderer.numToString is compared with an independent
 // formatter built on math/big: value (divided by 1000 with Thousands) rounded half away from zero to
 // Round digits, thousands separators every three integer digits, minus sign for negative values.
+// Three families: exhaustive small values, seeded samples, and values a hair away from a rounding boundary.
 
 import (
 	"fmt"
@@ -111,6 +112,26 @@ func TestKVStandinNumfmt(t *testing.T) {
 			s = "-" + s
 		}
 		check(s, rng.Intn(2) == 0, rng.Intn(5))
+	}
+	// boundary: amounts a hair (1e-14 .. 1e-20) below and above a rounding boundary, up to 22 decimals
+	for rd := 0; rd <= 5; rd++ {
+		for _, th := range []bool{false, true} {
+			for m := int64(0); m < 300; m++ {
+				b := big.NewRat(2*m+1, 2) // m + 1/2 units of the last displayed digit
+				b.Quo(b, new(big.Rat).SetInt(new(big.Int).Exp(big.NewInt(10), big.NewInt(int64(rd)), nil)))
+				if th {
+					b.Mul(b, big.NewRat(1000, 1))
+				}
+				for _, e := range []int64{14, 17, 20} {
+					eps := new(big.Rat).SetFrac(big.NewInt(1), new(big.Int).Exp(big.NewInt(10), big.NewInt(e), nil))
+					for _, v := range []*big.Rat{new(big.Rat).Sub(b, eps), new(big.Rat).Add(b, eps), b} {
+						str := v.FloatString(22)
+						check(str, th, rd)
+						check("-"+str, th, rd)
+					}
+				}
+			}
+		}
 	}
 	fmt.Printf("numfmt: %d evaluations, %d mismatches (seed %d)\n", n, bad, seed)
 	if bad > 0 {
